@@ -64,6 +64,18 @@ def pVersion : List Byte := [115, 101, 99, 45, 119, 101, 98, 115, 111, 99, 107, 
 def bBase64 : List Byte := [98, 97, 115, 101, 54, 52]   -- "base64"
 def bBinary : List Byte := [98, 105, 110, 97, 114, 121]   -- "binary"
 
+-- `prefix_literals_ok`: the explicit codes are the ASCII strings of websockets.c
+example : pGet = strBytes "GET " := by decide
+example : pHost = strBytes "host: " := by decide
+example : pOrigin = strBytes "origin: " := by decide
+example : pKey1 = strBytes "sec-websocket-key1: " := by decide
+example : pKey2 = strBytes "sec-websocket-key2: " := by decide
+example : pProtocol = strBytes "sec-websocket-protocol: " := by decide
+example : pSecOrigin = strBytes "sec-websocket-origin: " := by decide
+example : pKey = strBytes "sec-websocket-key: " := by decide
+example : pVersion = strBytes "sec-websocket-version: " := by decide
+example : bBase64 = strBytes "base64" ∧ bBinary = strBytes "binary" := by decide
+
 abbrev HSMAX : Nat := C09.maxHandshakeLen
 
 /-- the `char *` variables of `webSocketsHandshake` that point into the request buffer -/
